@@ -16,12 +16,10 @@ Definition pokes_inputs (b : pyblock) (steps : stimulus) : Prop :=
 Definition in_domain (b : pyblock) (steps : stimulus) : Prop :=
   exists tr, py_sim g_dom b steps (map fst (b_outs b)) (map fst (b_attrs b)) = (tr, true).
 
-(* rows after each step (row 0, before any step, is compared separately: a combinational block has already settled
-   in Verilog when py4hw has not yet called propagate) *)
 Definition agree_on (b : pyblock) (f : flat) (steps : stimulus) (ports attrs : list string) : Prop :=
   let '(vtr, vok) := vsim f (flat_clk f) steps (ports ++ attrs) in
   let '(ptr, pok) := py_sim g_dom b steps ports attrs in
-  vok = true /\ tl vtr = tl ptr.
+  vok = true /\ vtr = ptr.
 
 (* ------------------------------------------------------------------------------------------------------------
    Witnesses: source term dumped from py/props/c02_cases.py, target = parsed text the real transpiler returns at the
@@ -68,3 +66,33 @@ Definition tgt_CmpRhs : design := [
       IInitial SSkip;
       IAlways (EvPos "clk") (SIf (EBin BAnd (EBin BEq (ENum 5) (EId "a")) (ENum 7)) (SNba (LId "o") (ENum 1)) (SNba (LId "o") (ENum 0)))] |}].
 
+
+(* in-subset blocks of py/props/c02_cases.py (validated: used as non-vacuity examples of the soundness theorems) *)
+Definition src_LastWriteWins : pyblock :=
+  {| b_kind := KClock; b_ins := [("a", 6); ("b", 1)]; b_outs := [("o", 7)]; b_attrs := [("s", 0)];
+   b_body := (PSSeq (PSPrepare "o" (PGet "a")) (PSSeq (PSAttr "s" (PBin PBitXor (PAttr "s") (PConst 1))) (PSIf (PBool PAnd (PCmp PEq (PAttr "s") (PConst 1)) (PUn PNot (PGet "b"))) (PSPrepare "o" (PBin PAdd (PGet "a") (PConst 1))) PSPass))) |}.
+Definition tgt_LastWriteWins : design := [
+  {| m_name := "LastWriteWins"; m_params := []; m_ports := [{| p_dir := DIn; p_reg := false; p_width := 1; p_name := "clk" |}; {| p_dir := DIn; p_reg := false; p_width := 6; p_name := "a" |}; {| p_dir := DIn; p_reg := false; p_width := 1; p_name := "b" |}; {| p_dir := DOut; p_reg := true; p_width := 7; p_name := "o" |}];
+     m_items := [
+      IInteger "s";
+      IInitial (SBlk (LId "s") (ENum 0));
+      IAlways (EvPos "clk") (SSeq (SNba (LId "o") (EId "a")) (SSeq (SBlk (LId "s") (EBin BXor (EId "s") (ENum 1))) (SIf (EBin BLAnd (EBin BEq (EId "s") (ENum 1)) (EUn ULNot (EId "b"))) (SNba (LId "o") (EBin BAdd (EId "a") (ENum 1))) SSkip)))] |}].
+Definition src_MatchFsm : pyblock :=
+  {| b_kind := KClock; b_ins := [("a", 8); ("b", 1)]; b_outs := [("o", 16)]; b_attrs := [("s", 0); ("acc", 0)];
+   b_body := (PSCase (PAttr "s") 0 (PSIf (PGet "b") (PSSeq (PSAttr "s" (PConst 1)) (PSAttr "acc" (PGet "a"))) PSPass) (PSCase (PAttr "s") 1 (PSSeq (PSAttr "acc" (PBin PBitAnd (PBin PAdd (PBin PMul (PAttr "acc") (PConst 3)) (PGet "a")) (PConst 65535))) (PSSeq (PSPrepare "o" (PBin PRShift (PAttr "acc") (PConst 2))) (PSAttr "s" (PConst 2)))) (PSCase (PAttr "s") 2 (PSSeq (PSPrepare "o" (PBin PMod (PAttr "acc") (PConst 7))) (PSAttr "s" (PConst 0))) (PSAttr "s" (PConst 0))))) |}.
+Definition tgt_MatchFsm : design := [
+  {| m_name := "MatchFsm"; m_params := []; m_ports := [{| p_dir := DIn; p_reg := false; p_width := 1; p_name := "clk" |}; {| p_dir := DIn; p_reg := false; p_width := 8; p_name := "a" |}; {| p_dir := DIn; p_reg := false; p_width := 1; p_name := "b" |}; {| p_dir := DOut; p_reg := true; p_width := 16; p_name := "o" |}];
+     m_items := [
+      IInteger "s";
+      IInteger "acc";
+      IInitial (SSeq (SBlk (LId "s") (ENum 0)) (SBlk (LId "acc") (ENum 0)));
+      IAlways (EvPos "clk") (SIf (EBin BEq (EId "s") (ENum 0)) (SIf (EId "b") (SSeq (SBlk (LId "s") (ENum 1)) (SBlk (LId "acc") (EId "a"))) SSkip) (SIf (EBin BEq (EId "s") (ENum 1)) (SSeq (SBlk (LId "acc") (EBin BAnd (EBin BAdd (EBin BMul (EId "acc") (ENum 3)) (EId "a")) (ENum 65535))) (SSeq (SNba (LId "o") (EBin BShr (EId "acc") (ENum 2))) (SBlk (LId "s") (ENum 2)))) (SIf (EBin BEq (EId "s") (ENum 2)) (SSeq (SNba (LId "o") (EBin BMod (EId "acc") (ENum 7))) (SBlk (LId "s") (ENum 0))) (SBlk (LId "s") (ENum 0)))))] |}].
+Definition src_CombMux : pyblock :=
+  {| b_kind := KPropagate; b_ins := [("a", 5); ("b", 2)]; b_outs := [("o", 8)]; b_attrs := [];
+   b_body := (PSSeq (PSLocal "t" (PBin PBitAnd (PBin PRShift (PGet "a") (PConst 1)) (PConst 3))) (PSIf (PBool POr (PCmp PEq (PGet "b") (PConst 1)) (PCmp PEq (PLocal "t") (PConst 2))) (PSPut "o" (PBin PAdd (PLocal "t") (PConst 5))) (PSPut "o" (PBin PBitXor (PGet "a") (PConst 9))))) |}.
+Definition tgt_CombMux : design := [
+  {| m_name := "CombMux"; m_params := []; m_ports := [{| p_dir := DIn; p_reg := false; p_width := 5; p_name := "a" |}; {| p_dir := DIn; p_reg := false; p_width := 2; p_name := "b" |}; {| p_dir := DOut; p_reg := true; p_width := 8; p_name := "o" |}];
+     m_items := [
+      IInteger "t";
+      IInitial SSkip;
+      IAlways EvStar (SSeq (SBlk (LId "t") (EBin BAnd (EBin BShr (EId "a") (ENum 1)) (ENum 3))) (SIf (EBin BLOr (EBin BEq (EId "b") (ENum 1)) (EBin BEq (EId "t") (ENum 2))) (SNba (LId "o") (EBin BAdd (EId "t") (ENum 5))) (SNba (LId "o") (EBin BXor (EId "a") (ENum 9)))))] |}].
